@@ -349,7 +349,9 @@ var c17IntSrc = []string{"0", "1", "-1", "2", "3", "7", "8", "10", "16", "36", "
 var c17FloatSrc = []string{"0.5", "-0.5", "-0.0", "1.5", "2.5", "3.7", "1e308", "-1e308", "1e-320", "5e-324", "nan", "inf", "-inf", "(num nan)", "(num inf)", "(num -inf)",
 	"(num 0.1)", "(num 1e100)", "1e400", "9007199254740993.0", "(num 1e19)", "(num -1e19)", "0.0"}
 
-var c17BigSrc = []string{"9223372036854775808", "-9223372036854775809", "18446744073709551616", "100000000000000000000000000", "-100000000000000000000000000",
+var c17BigSrc = []string{"(- 100000000000000000000 100000000000000000000)", "(range 0 100000000000000000000 &step=50000000000000000000 | take 1)", "(* (num 1/2) 2)", "(/ 100000000000000000000 100000000000000000000)",
+	"(range 0 100000000000000000000 &step=50000000000000000000 | take 1)", "(+ 9223372036854775807 1 -9223372036854775808)", "(range 1/2 3 | drop 1 | take 1)",
+	"9223372036854775808", "-9223372036854775809", "18446744073709551616", "100000000000000000000000000", "-100000000000000000000000000",
 	"(num 9223372036854775808)", "(num 100000000000000000000000000)", "1/2", "-7/3", "(num 1/3)", "(num -22/7)", "(num 100000000000000000000000000/3)", "1/100000000000000000000000000", "(num 1/0.5)"}
 
 var c17FnSrc = []string{
@@ -390,11 +392,29 @@ var c17SmallExp = []string{"0", "1", "-1", "2", "3", "-3", "10", "64", "-64", "0
 var c17MinTime = []string{"0s", "1ms", "-1s", "x", "1us", "0", "10us"}
 var c17MinRuns = []string{"0", "1", "2", "-1", "x", "3", "(num 1)", "1.5"}
 
+var c17Divisors = []string{"0", "(num 0)", "0.0", "-0.0", "(num 0/1)", "(- 100000000000000000000 100000000000000000000)", "(range 0 100000000000000000000 &step=50000000000000000000 | take 1)",
+	"(* (num 1/2) 0)", "(+ 9223372036854775807 1 -9223372036854775808)", "1", "-1", "(num 1/2)", "100000000000000000000", "x", "nan", "inf", "$nil", "[]", "(- (num 1/3) (num 1/3))"}
+var c17RePatterns = []string{"'(a)|b'", "'a(b)?'", "'(x)*y'", "'(a)(b)?'", "'a|(b)'", "'(?P<n>a)?b'", "'((a)|b)+'", "'(a*)(b*)'", "'()'", "'(a)?'", "'^(a)?$'", "'(a|(b))c'", "'.'", "'a'", "'['", "\"\\xff\"", "'a{2,1}'", "'(?i)x'", "'\\d'", "'**'", "''", "$nil", "[]", "(num 1)"}
+var c17ReSources = []string{"a", "b", "ab", "xa", "y", "ba", "''", "bc", "aab", "c", "abab", "\"\\xffa\"", "世a", "X", "$1", "'${n}'", "{|m| put $m[text] }"}
+
 // c17Override returns a bounded pool for a parameter that is a duration, a
 // count or a size (DESIGN: resource-taking parameters stay small unless the
 // value makes the command fail fast), or nil.
 func c17Override(fn string, idx int, opt string) []string {
+	if strings.HasPrefix(fn, "re:") && opt == "" && idx >= 0 && idx <= 2 {
+		// patterns with optional / alternative capture groups (and a few hostile
+		// ones) and short sources that match them with a group left out
+		if idx == 0 {
+			return c17RePatterns
+		}
+		return c17ReSources
+	}
 	switch fn {
+	case "%", "/":
+		// divisors: zeros in every representation, also as builtins produce them
+		if idx >= 1 && opt == "" {
+			return c17Divisors
+		}
 	case "sleep":
 		return c17SmallDur
 	case "repeat":
